@@ -29,6 +29,12 @@ class V:
         self.ghost = None        # None | dict(mode='expr'|'nodefault', target=...) S-only variant
         self.vexpr = None        # marker for variant-level expression
         self.rename_form = "map"
+        self.permuted = False
+
+    def t_order(self):
+        """mapped payload fields in the counterpart's positional order"""
+        mapped = [f for f in self.fields if f.desig != "ghost"]
+        return sorted(mapped, key=lambda f: f.tname) if self.permuted else mapped
 
 
 class TOnly:
@@ -115,6 +121,22 @@ def gen_enum_case(g, cid, opts=None):
             k = g.mark()
             v.t_only.append((f"go{k}" if v.tshape == "named" else n_mapped, r.choice(LEAVES), k))
         ec.vs.append(v)
+    # From-only sub-family: positional counterpart payloads addressed by explicit index, in permuted order (`#[from(1, expr)]`)
+    if (opts or {}).get("permuted", g.chance(0.2)):
+        ec.from_only = True
+        for v in ec.vs:
+            mapped = [f for f in v.fields if f.desig != "ghost"]
+            if v.tshape != "tuple" or len(mapped) < 2 or len(mapped) != len(v.fields) or v.t_only:
+                continue
+            perm = list(range(len(mapped)))
+            while perm == sorted(perm):
+                r.shuffle(perm)
+            for f, p_ in zip(mapped, perm):
+                f.tname = p_
+                if f.desig == "same" and g.chance(0.5):
+                    f.desig = "expr"
+            v.permuted = True
+            ec.flags.add("permuted")
     # S-only (ghost) variants
     ec.default_case = None
     if g.chance(0.35):
@@ -170,6 +192,8 @@ def payload_attrs(v, f, fallible=False, flip=0):
     # owned kinds
     n_owned = "try_map_owned" if (fallible and flip & 1) else "map_owned"
     n_ref = "try_map_ref" if (fallible and flip & 2) else "map_ref"
+    if v.permuted:
+        n_owned, n_ref = n_owned.replace("map", "from"), n_ref.replace("map", "from")
     if f.desig == "expr":
         out.append(Instr(n_owned, "map", container=None, member=member, action=rnd_expr(f.ty, f.k_owned, "~"), braced=False))
     elif member is not None:
@@ -276,7 +300,7 @@ def render_enum_module(ec, g, fallible, draws):
         if v.tshape == "unit":
             tv.append(f"{v.tname},")
         elif v.tshape == "tuple":
-            cols = [f.ty for f in mapped] + [ty for _, ty, _ in v.t_only]
+            cols = [f.ty for f in v.t_order()] + [ty for _, ty, _ in v.t_only]
             tv.append(f"{v.tname}(" + ", ".join(cols) + "),")
         else:
             cols = [f"{f.tname}: {f.ty}" for f in mapped] + [f"{n}: {ty}" for n, ty, _ in v.t_only]
@@ -324,7 +348,7 @@ def render_enum_module(ec, g, fallible, draws):
                 if f.desig == "ghost":
                     vals.append(const_of(f.ty, f.ghost_k))
                 else:
-                    vals.append(ref_payload(f, f"b{mi}.clone()", ref))
+                    vals.append(ref_payload(f, f"b{f.tname if v.permuted else mi}.clone()", ref))
                     mi += 1
             if v.shape == "unit":
                 ctor = f"S::{v.name}"
@@ -343,6 +367,8 @@ def render_enum_module(ec, g, fallible, draws):
         nm = "from_ref" if ref else "from_owned"
         L.append(f"#[allow(unreachable_code)] fn ref_{nm}(t: &T) -> {'Result<S, super::Er>' if fallible else 'S'} {{ {wrap('match t { ' + ' '.join(arms) + ' }')} }}")
         # Into: S -> T
+        if ec.from_only:
+            continue
         arms = []
         for v in ec.vs:
             if v.shape == "named":
@@ -394,7 +420,7 @@ def render_enum_module(ec, g, fallible, draws):
         if v.tshape == "unit":
             tvals.append(f"T::{v.tname}")
         elif v.tshape == "tuple":
-            tvals.append(f"T::{v.tname}(" + ", ".join([rng_call(f.ty) for f in mapped] + [rng_call(ty) for _, ty, _ in v.t_only]) + ")")
+            tvals.append(f"T::{v.tname}(" + ", ".join([rng_call(f.ty) for f in v.t_order()] + [rng_call(ty) for _, ty, _ in v.t_only]) + ")")
         else:
             tvals.append(f"T::{v.tname} {{ " + ", ".join([f"{f.tname}: {rng_call(f.ty)}" for f in mapped] + [f"{n}: {rng_call(ty)}" for n, ty, _ in v.t_only]) + " }")
     for t in ec.t_only:
